@@ -2689,14 +2689,13 @@ def remove_redundant_comprehension_casts(source: str) -> str:
         keywords=[],
     )
 
+    safe_callables = parsing.safe_callable_names(root)
     for node, comp, func in core.walk_wildcard(root, template):
-        equivalent_setcomp = ast.SetComp(comp.key, comp.generators)
         if func == "dict":
             yield node, comp
-        if func == "set":
-            yield node, equivalent_setcomp
-        if func in {"list", "iter"}:
-            yield node, ast.Call(func=ast.Name(id=func), args=[equivalent_setcomp], keywords=[])
+        # list() and iter() of a dict follow the insertion order, which a set does not have
+        if func == "set" and not core.has_side_effect(comp.value, safe_callables):
+            yield node, ast.SetComp(comp.key, comp.generators)
 
 
 @processing.fix
